@@ -5,7 +5,7 @@
    executes it under the policy [p] (one flag per code site that chooses between copying and aliasing) and returns its
    effect summary.  [sstep qf] is the value semantics: immutable objects, no heap, no cache.  [qf] -- what a quantity's
    value is as a function of the object's mask and contents -- is universally quantified everywhere.
-   [faithful] is the policy of /repo (with fixes/C11_*.diff), [finding_class] the recorded finding D8. *)
+   [faithful] is the policy of /repo, [finding_class] the recorded finding D8. *)
 From Coq Require Import ZArith List Bool.
 From PAV Require Import Base.Res Model.C11 Proofs.C11.
 Import ListNotations.
